@@ -31,15 +31,21 @@ CHECKS = {
          "the ancestry), every rule stated declaratively, with per-rule iff lemmas and shape theorems for the path-template scanner; "
          "decide-witnesses for the diamond, a cycle below the starting definition and a property inherited twice. Tie: rule messages reported by "
          "Go = messages of the model, as sets, on grammar documents with 0-2 edits from a 41-entry catalogue (one per rule and variant, plus "
-         "entries that break no rule), and accepted <=> model reports nothing in both modes. Partial: nesting deeper than 64 levels is outside the model.",
+         "entries that break no rule), accepted <=> model reports nothing in both modes, and the verdict of the whole-of-Validate model "
+         "(Impl/SpecModel.lean; theorem: it accepts exactly when the schema pass, every rule and the value stages report nothing) = the "
+         "code's verdict in both modes. Partial: nesting deeper than 64 levels is outside the model.",
          "Lean 4 proof (per-rule soundness and completeness of the loop models) + rule-message differential on grammar documents", "DESIGN.md §6 C03, §14"),
- "C07": ("Kernel-checked theorems: the default and example stages add no panic of their own for every view, visited-path configuration and "
-         "oracle when the validators they call return normally (mutual induction over schemas; the nil result of a visited path is never "
-         "dereferenced), the pipeline returns normally when its stages do, a dot-free path with a fresh visited set never yields nil, and a "
-         "decide-obligation on the regenerated table of reads on possibly-nil results. Tie: arbitrarily mutated grammar and fixture documents "
-         "validated in both modes, each in its own child process so that fatal errors and hangs are observed. Partial: loads, analysis, the "
-         "$ref expander and the schema/parameter validators called for judging are outside these theorems (C06/C16); termination is observed, not proved.",
-         "Lean 4 proof (panic flag through the stage models) + regenerated nil-read table + mutation-stream correspondence in child processes", "DESIGN.md §6 C07, §14"),
+ "C07": ("Kernel-checked theorem about the model of the whole of (*SpecValidator).Validate (Swagger schema pass over the raw document, "
+         "reference check, every rule loop, default and example stages judging with the models of the schema, parameter, header and items "
+         "validators as they are, merged by the pipeline): it never panics, in either continue-on-errors mode, for every document view "
+         "whose definitions table is closed and whose schemas only hold references it knows (an executable check, evaluated on every "
+         "generated document), every raw document, regexp engine and format registry — composed from C06's no-panic theorem for the validator "
+         "tree, a no-panic theorem for the parameter/header/items chains, the stage theorems (mutual induction over schemas; the nil result "
+         "of a visited path is never dereferenced) and the pipeline theorem; plus a decide-obligation on the regenerated table of reads on "
+         "possibly-nil results. Tie: arbitrarily mutated grammar and fixture documents validated in both modes, each in its own child process "
+         "so that fatal errors and hangs are observed; the whole-model verdict = the code's verdict in both modes. Partial: loads, analysis and "
+         "the $ref expander of go-openapi/spec are outside the model (oracle); termination of the code is observed, not proved.",
+         "Lean 4 proof (whole-of-Validate model never panics) + regenerated nil-read table + mutation-stream correspondence in child processes", "DESIGN.md §6 C07, §14"),
  "C09": ("Kernel-checked theorem, for every schema, path, visited set, judges and oracle: with the visited-path cut-off removed the schema "
          "walker of the default (errors) and example (warnings) validators reports a message exactly when the recursive specification asks for "
          "it (the judgement of the value at some location reachable through items, tuple items, additionalItems, properties, "
